@@ -17,8 +17,8 @@ type verifSpreadInput struct {
 }
 
 func (in *verifSpreadInput) Start(AnyConfig, *InputPluginParams) {}
-func (in *verifSpreadInput) Stop()                                {}
-func (in *verifSpreadInput) PassEvent(*Event) bool                { return true }
+func (in *verifSpreadInput) Stop()                               {}
+func (in *verifSpreadInput) PassEvent(*Event) bool               { return true }
 func (in *verifSpreadInput) Commit(e *Event) {
 	// C10: marking offset+1 of this record must not pass an unfinished earlier record of the partition
 	for _, o := range in.all {
@@ -82,7 +82,7 @@ func VerifH_C10_spread() {
 type verifWork struct{}
 
 func (a *verifWork) Start(AnyConfig, *ActionPluginParams) {}
-func (a *verifWork) Stop()                                 {}
+func (a *verifWork) Stop()                                {}
 func (a *verifWork) Do(e *Event) ActionResult {
 	if !e.IsTimeoutKind() {
 		vf.Yield()
